@@ -25,6 +25,7 @@ import (
 	"runtime"
 	"runtime/debug"
 	"sort"
+	"strconv"
 	"strings"
 	"sync"
 	"sync/atomic"
@@ -70,10 +71,11 @@ type c37Fails struct {
 	mu    sync.Mutex
 	best  map[string]*c37Fail
 	count map[string]int64
+	all   map[string][]c37Fail // every failing case (ord + case text), for the examples list
 }
 
 func c37NewFails() *c37Fails {
-	return &c37Fails{best: map[string]*c37Fail{}, count: map[string]int64{}}
+	return &c37Fails{best: map[string]*c37Fail{}, count: map[string]int64{}, all: map[string][]c37Fail{}}
 }
 
 func c37OrdLess(a, b []uint64) bool {
@@ -89,6 +91,9 @@ func (f *c37Fails) add(class string, ord []uint64, caseStr, desc string, replay 
 	f.mu.Lock()
 	defer f.mu.Unlock()
 	f.count[class]++
+	if len(f.all[class]) < 100000 {
+		f.all[class] = append(f.all[class], c37Fail{ord: append([]uint64(nil), ord...), key: caseStr})
+	}
 	if b := f.best[class]; b == nil || c37OrdLess(ord, b.ord) {
 		f.best[class] = &c37Fail{ord: append([]uint64(nil), ord...), key: class + ": " + caseStr, desc: desc, replay: replay}
 	}
@@ -102,6 +107,19 @@ func (f *c37Fails) report(r *vk.Run) {
 		classes = append(classes, c)
 	}
 	sort.Strings(classes)
+	examples := map[string][]string{}
+	for _, c := range classes {
+		l := f.all[c]
+		sort.Slice(l, func(i, j int) bool { return c37OrdLess(l[i].ord, l[j].ord) })
+		for i := 0; i < len(l) && len(examples[c]) < 8; i++ {
+			if i == 0 || l[i].key != l[i-1].key {
+				examples[c] = append(examples[c], l[i].key)
+			}
+		}
+	}
+	if len(examples) > 0 {
+		r.Set(c37P, "failing_examples_smallest_first", examples)
+	}
 	for _, c := range classes {
 		b := f.best[c]
 		// key = class + number of failing cases of the class in this tier's domain +
@@ -143,6 +161,13 @@ func c37Map(ws []uint32, order []int, dress func(i int, es *endpointState)) *res
 		m.Set(ep, es)
 	}
 	return m
+}
+
+func c37EnvInt(name string, def int) int {
+	if v, err := strconv.Atoi(os.Getenv(name)); err == nil {
+		return v
+	}
+	return def
 }
 
 func c37Identity(n int) []int {
@@ -463,10 +488,17 @@ func c37CheckRing(ws []uint32, lo, hi uint64, rg *ring) ([]c37Problem, c37Facts)
 			f.maxDevN = d
 		}
 	}
-	if L.Cmp(U) >= 0 {
+	if cmp := L.Cmp(U); cmp >= 0 {
 		lf, _ := L.Float64()
 		uf, _ := U.Float64()
-		probs = append(probs, c37Problem{"ring-proportion", fmt.Sprintf("entry counts %v (ring size %d) are not roundings of k*w_i/Σw for any single k: need k > %.6f and k < %.6f", f.counts, N, lf, uf)})
+		if cmp == 0 {
+			// the intervals touch: the counts are admissible only with a deviation of
+			// EXACTLY 1 (k = L = U), i.e. one endpoint has one entry more and another
+			// one entry less than k*p_i although no rounding is needed there.
+			probs = append(probs, c37Problem{"ring-proportion-boundary", fmt.Sprintf("entry counts %v (ring size %d) are not roundings of k*w_i/Σw for any single k: need k > %.6f and k < %.6f (with k = %.6f some endpoint deviates by exactly one whole entry)", f.counts, N, lf, uf, lf)})
+		} else {
+			probs = append(probs, c37Problem{"ring-proportion", fmt.Sprintf("entry counts %v (ring size %d) are not roundings of k*w_i/Σw for any single k: need k > %.6f and k < %.6f", f.counts, N, lf, uf)})
+		}
 	}
 	return probs, f
 }
@@ -671,6 +703,43 @@ type c37RingStats struct {
 	skippedSets int64
 }
 
+// c37OrderPlan says which endpoint orders are run for a ring size pair: direct =
+// insertion orders into the EndpointMap given to newRing (first one must be the
+// identity), bal = update orders through the real balancer (nil/empty = none).
+type c37OrderPlan struct {
+	direct func(hi uint64) [][]int
+	bal    func(lo, hi uint64) [][]int
+}
+
+// c37FewOrders: identity, reversal and the cyclic rotations of the identity.
+func c37FewOrders(n int) [][]int {
+	out := [][]int{c37Identity(n)}
+	if n == 1 {
+		return out
+	}
+	rev := make([]int, n)
+	for i := range rev {
+		rev[i] = n - 1 - i
+	}
+	out = append(out, rev)
+	for k := 1; k < n; k++ {
+		rot := make([]int, n)
+		for i := range rot {
+			rot[i] = (i + k) % n
+		}
+		dup := false
+		for _, o := range out {
+			if fmt.Sprint(o) == fmt.Sprint(rot) {
+				dup = true
+			}
+		}
+		if !dup {
+			out = append(out, rot)
+		}
+	}
+	return out
+}
+
 func c37SizeClass(N int, lo, hi uint64, n int) string {
 	switch {
 	case uint64(n) > hi:
@@ -691,7 +760,7 @@ func c37SizeClass(N int, lo, hi uint64, n int) string {
 }
 
 // c37RingSet runs everything of leg 1 for one endpoint set.
-func c37RingSet(ws []uint32, pairs [][2]uint64, allPerms, bigPerms [][]int, balPair func(lo, hi uint64) bool, fl *c37Fails, st *c37RingStats) {
+func c37RingSet(ws []uint32, pairs [][2]uint64, plan c37OrderPlan, fl *c37Fails, st *c37RingStats) {
 	n := len(ws)
 	var evals, nontriv, rings, balRuns, searches, zeroCases, devGE1, collisions int64
 	var maxDev float64
@@ -777,16 +846,17 @@ func c37RingSet(ws []uint32, pairs [][2]uint64, allPerms, bigPerms [][]int, balP
 			oc += ",every endpoint present"
 		}
 		outcomes[oc]++
-		ns, sp := c37CheckSearch(r0)
+		var ns int64
+		var sp *c37Problem
+		if !facts.collision { // equal entry hashes: "first clockwise" is ambiguous (never observed; counted)
+			ns, sp = c37CheckSearch(r0)
+		}
 		searches += ns
 		if sp != nil {
 			fl.add(sp.class, c37Ord(ws, lo, hi), caseStr, caseStr+": "+sp.desc, rep)
 		}
 		sig0 := c37Sig(r0)
-		perms := allPerms
-		if hi >= 1024 {
-			perms = bigPerms // == allPerms in the thorough tier
-		}
+		perms := plan.direct(hi) // perms[0] is always the identity (the canonical ring)
 		// order independence, direct: every insertion order
 		for pi, perm := range perms {
 			if pi == 0 {
@@ -804,8 +874,8 @@ func c37RingSet(ws []uint32, pairs [][2]uint64, allPerms, bigPerms [][]int, balP
 			}
 		}
 		// order independence, through the real balancer: every update order
-		if balPair(lo, hi) {
-			for pi, perm := range perms {
+		if plan.bal != nil {
+			for pi, perm := range plan.bal(lo, hi) {
 				for mi, mode := range c37BalModes {
 					if mode == "shrink" && sumW+5 > math.MaxUint32 {
 						// the intermediate set (with the extra endpoint of weight 5)
@@ -833,7 +903,7 @@ func TestVerif_C37_Ring(t *testing.T) {
 	defer r.Finish()
 	// many short-lived ring entries, tiny live heap: keep the collector from
 	// running every few MB
-	defer debug.SetGCPercent(debug.SetGCPercent(400))
+	defer debug.SetGCPercent(debug.SetGCPercent(c37EnvInt("C37_GCPERCENT", 200)))
 	fl := c37NewFails()
 	st := &c37RingStats{outcomes: map[string]int64{}}
 	allPairs := c37Pairs(c37Sizes)
@@ -858,7 +928,20 @@ func TestVerif_C37_Ring(t *testing.T) {
 			r.EngineError("replay: bad weights %v", c.Weights)
 			return
 		}
-		c37RingSet(c.Weights, [][2]uint64{{c.Min, c.Max}}, c37Perms(len(c.Weights)), c37Perms(len(c.Weights)), func(lo, hi uint64) bool { return hi <= 1024 }, fl, st)
+		var rperms [][]int
+		if len(c.Weights) <= 4 {
+			rperms = c37Perms(len(c.Weights))
+		} else {
+			rperms = c37FewOrders(len(c.Weights))
+		}
+		c37RingSet(c.Weights, [][2]uint64{{c.Min, c.Max}}, c37OrderPlan{
+			direct: func(uint64) [][]int { return rperms },
+			bal: func(lo, hi uint64) [][]int {
+				if len(c.Weights) > 4 {
+					return nil
+				}
+				return rperms
+			}}, fl, st)
 		r.Eval(c37P, st.evals)
 		r.Rule(c37P, "replay of one endpoint set and ring size pair (all orders)")
 		fl.report(r)
@@ -874,61 +957,80 @@ func TestVerif_C37_Ring(t *testing.T) {
 	}
 	type job struct {
 		ws    []uint32
-		perms [][]int
-		big   [][]int
 		pairs [][2]uint64
-		bal   func(lo, hi uint64) bool
+		plan  c37OrderPlan
 	}
 	var jobs []job
-	balQuick := func(lo, hi uint64) bool { return hi <= 100 && (lo == hi || lo == 1 || hi == 100) }
-	balThorough := func(lo, hi uint64) bool { return hi <= 1024 || (lo == 1024 && hi == 4096) }
-	bal := balQuick
-	if r.Thorough() {
-		bal = balThorough
-	}
-	none := func(lo, hi uint64) bool { return false }
+	thorough := r.Thorough()
 	for n := 1; n <= 4; n++ {
 		m := full
 		if n == 4 {
 			m = menu4
 		}
 		perms := c37Perms(n)
-		big := perms
-		if !r.Thorough() {
-			// quick: rings with max_ring_size >= 1024 are built in the first and
-			// the last (reversed) insertion order only (n=4: first only)
-			big = [][]int{perms[0], perms[len(perms)-1]}
-			if n == 4 || n == 1 {
-				big = perms[:1]
-			}
+		few := c37FewOrders(n)
+		two := few
+		if len(two) > 2 {
+			two = few[:2] // identity, reversal
+		}
+		n := n
+		plan := c37OrderPlan{
+			direct: func(hi uint64) [][]int {
+				switch {
+				case hi <= 100:
+					return perms
+				case thorough && (n <= 3 || hi <= 1024):
+					return perms
+				case thorough:
+					return few // n=4, max=4096
+				case n <= 3:
+					return two
+				default:
+					return perms[:1]
+				}
+			},
+			bal: func(lo, hi uint64) [][]int {
+				pr := [2]uint64{lo, hi}
+				if thorough {
+					switch {
+					case hi <= 100:
+						return perms
+					case pr == [2]uint64{100, 1024} || pr == [2]uint64{1024, 1024} || pr == [2]uint64{1024, 4096}:
+						return two
+					}
+					return nil
+				}
+				if pr == [2]uint64{1, 1} || pr == [2]uint64{1, 3} || pr == [2]uint64{3, 10} || pr == [2]uint64{10, 100} || pr == [2]uint64{100, 100} {
+					return perms
+				}
+				return nil
+			},
 		}
 		for _, ws := range c37Tuples(m, n) {
-			jobs = append(jobs, job{ws, perms, big, allPairs, bal})
+			jobs = append(jobs, job{ws, allPairs, plan})
 		}
 	}
-	// wide sets (beyond the n<=4 bound of the plan; insertion order = identity and
-	// reversed only): more endpoints make the float accumulation of the
-	// per-endpoint targets longer. n=5,6 (quick: menu {1,3,7}; thorough: n=5..7, menu {1,3,7,100,1e9}).
+	// wide sets (beyond the n<=4 bound of the plan; few orders, no balancer
+	// runs): more endpoints make the float accumulation of the per-endpoint
+	// targets longer.
 	wideMenus := map[int][]uint32{5: {1, 3, 7}, 6: {1, 3}}
-	if r.Thorough() {
-		wideMenus = map[int][]uint32{5: {1, 3, 7, 100, 1000000000}, 6: {1, 3, 7}, 7: {1, 3}, 8: {1, 3}}
+	if thorough {
+		wideMenus = map[int][]uint32{5: {1, 3, 7, 1000000000}, 6: {1, 3, 7}, 7: {1, 3}, 8: {1, 3}}
 	}
 	nWide := 0
 	for n := 5; n <= 8; n++ {
 		if wideMenus[n] == nil {
 			continue
 		}
-		rev := make([]int, n)
-		for i := range rev {
-			rev[i] = n - 1 - i
-		}
-		perms := [][]int{c37Identity(n), rev}
-		for _, ws := range c37Tuples(wideMenus[n], n) {
-			big := perms
-			if !r.Thorough() {
-				big = perms[:1]
+		two := c37FewOrders(n)[:2]
+		plan := c37OrderPlan{direct: func(hi uint64) [][]int {
+			if hi >= 1024 && !thorough {
+				return two[:1]
 			}
-			jobs = append(jobs, job{ws, perms, big, allPairs, none})
+			return two
+		}}
+		for _, ws := range c37Tuples(wideMenus[n], n) {
+			jobs = append(jobs, job{ws, allPairs, plan})
 			nWide++
 		}
 	}
@@ -950,7 +1052,7 @@ func TestVerif_C37_Ring(t *testing.T) {
 		if os.Getenv("C37_PROGRESS") != "" {
 			fmt.Fprintf(os.Stderr, "c37 start %d ws=%v\n", k, j.ws)
 		}
-		c37RingSet(j.ws, j.pairs, j.perms, j.big, j.bal, fl, st)
+		c37RingSet(j.ws, j.pairs, j.plan, fl, st)
 		if os.Getenv("C37_PROGRESS") != "" { // debugging aid only; never influences the result
 			fmt.Fprintf(os.Stderr, "c37 job %d/%d n=%d ws=%v %.2fs\n", k, len(order), len(j.ws), j.ws, time.Since(t0).Seconds())
 		}
@@ -960,7 +1062,14 @@ func TestVerif_C37_Ring(t *testing.T) {
 	}
 	fl.report(r)
 
-	r.Rule(c37P, "endpoint sets: n=1..4 distinct endpoints (fixed addresses = hash keys), weight of each endpoint from {1,2,3,7,100,1e9,2^32-1} (quick: n=4 from {1,3,100,1e9,2^32-1}), all weight assignments x all 28 (min,max) pairs over {1,2,3,10,100,1024,4096} with min<=max x ALL n! insertion orders into the EndpointMap fed to the real newRing, plus (pairs with max<=100 quick / <=1024 and (1024,4096) thorough) ALL n! x 3 resolver-update sequences (add one endpoint at a time; start at weight 1 and correct one weight at a time; extra endpoint added then removed) through a real ringhashBalancer; plus wide sets n=5..6 (thorough ..7) in 2 orders; on every canonical ring ring.pick/ring.next for every entry hash +-{0,1}, 0, MaxUint64 vs linear sweep / brute force. One evaluation = one ring built and compared (or one normalisation check). Non-trivial = (set, size pair) with n>=2 where some N*w_i/sum(w) is not an integer, i.e. rounding really decides the entry counts; counted once per (set,pair)")
+	rule := "endpoint sets: n=1..4 distinct endpoints (fixed addresses = hash keys), every assignment of weights from {1,2,3,7,100,1e9,2^32-1}"
+	if thorough {
+		rule += " x all 28 (min,max) pairs over {1,2,3,10,100,1024,4096} with min<=max; insertion orders into the EndpointMap given to the real newRing: ALL n! (n=4 with max=4096: identity, reversal and the rotations); update orders through a real ringhashBalancer (3 sequence shapes: add one endpoint at a time / start at weight 1 and correct one weight at a time / extra endpoint added then removed): ALL n! for the 15 pairs with max<=100, identity+reversal for (100,1024),(1024,1024),(1024,4096); wide sets n=5 over {1,3,7,1e9}, n=6 over {1,3,7}, n=7,8 over {1,3} in 2 orders"
+	} else {
+		rule += " (n=4: from {1,7,1e9,2^32-1}) x 20 (min,max) pairs (the 15 with max<=100 plus (1,1024),(100,1024),(1024,1024),(1024,4096),(4096,4096)); insertion orders into the EndpointMap given to the real newRing: ALL n! for max<=100, identity+reversal (n=4: identity only) for max>=1024; update orders through a real ringhashBalancer (3 sequence shapes: add one endpoint at a time / start at weight 1 and correct one weight at a time / extra endpoint added then removed): ALL n! for (1,1),(1,3),(3,10),(10,100),(100,100); wide sets n=5 over {1,3,7}, n=6 over {1,3} in <=2 orders"
+	}
+	rule += "; on every canonical ring ring.pick/ring.next for every entry hash +-{0,1}, 0, MaxUint64 vs linear sweep / brute force. One evaluation = one ring built and checked/compared, one balancer update sequence, or one normalisation check. Non-trivial = (set, size pair) with n>=2 where some N*w_i/sum(w) is not an integer, i.e. rounding really decides the entry counts; counted once per (set,pair)"
+	r.Rule(c37P, rule)
 	r.Eval(c37P, st.evals)
 	r.NontrivialN(c37P, st.nontrivial)
 	ocs := make([]string, 0, len(st.outcomes))
